@@ -23,6 +23,11 @@
       real Start, real group join / fetch against an in-process broker, real Commit of the finish list,
       real Stop; the offsets the broker holds afterwards. Model: the marks. P: Spec.verdict on them.
 
+  c10.live  <procs> <ntopics> <name>… <nrec> (<name> <part> <offset> <epoch> <kind>)… <nfinish> <i>…
+            | <nrec> (<sourceID> <offset> <accepted>)…sorted <nacked> <i>… <k> marks… <regress> <k> committed…
+      real pipeline + real plugin + group broker; kind 1 / 2 = tombstone / malformed JSON, refused by In:
+      no event, no mark. Marks before the stop and offsets the broker holds after it.
+
   c10.pipe  <procs> <async> <capacity> <ntopics> <nrec> (<topic> <part> <offset> <epoch> <discard>)… <nchoice> <c>…
             | <nops> op…   with op = in <i> <stream> <sourceID> <offset> | out <i> | drop <i>
                                      | ack <i> <k> (<topic> <part> <epoch> <offset>)*k
@@ -114,13 +119,17 @@ def marksModel (ntopics : Nat) (recs : List Rec) : Marks → List Nat → Option
     let rest ← marksModel ntopics recs m' is
     pure (m' :: rest)
 
-/-- verdicts after each commit of the implementation's observed marks -/
+/-- verdicts after each commit of the implementation's observed marks.
+    The `Own` clause of the oracle ranges over every CONSUMED record (`List.range recs.length`), as the
+    property says ("at most one past a record it has consumed, its own topic / partition / epoch");
+    that the code only ever marks ACKNOWLEDGED records is the theorem `mark_at_most_one_past_consumed`
+    and the correspondence with the model, not a demand of the oracle. -/
 def marksVerdicts (recs : List Rec) : List Nat → List Nat → List String → List String
   | _, [], _ => []
   | done, i :: is, ts =>
     let done' := i :: done
     match parseMarkList ts with
-    | some (obs, rest) => SpecC10.verdict recs done' done' obs :: marksVerdicts recs done' is rest
+    | some (obs, rest) => SpecC10.verdict recs done' (List.range recs.length) obs :: marksVerdicts recs done' is rest
     | none => ["bad-impl"]
 
 def handleMarks (args impl : List String) : Option (String × String) :=
@@ -219,7 +228,7 @@ def pipeVerdicts (caseRecs : List Rec) : List Rec → List Nat → List Nat → 
     | .tout _ => pipeVerdicts caseRecs recs fin ack ops
     | .tdrop i => pipeVerdicts caseRecs recs (i :: fin) ack ops
     | .tack i obs =>
-      SpecC10.verdict recs (i :: fin) (i :: ack) obs :: pipeVerdicts caseRecs recs (i :: fin) (i :: ack) ops
+      SpecC10.verdict recs (i :: fin) (List.range recs.length) obs :: pipeVerdicts caseRecs recs (i :: fin) (i :: ack) ops
 
 def handlePipe (args impl : List String) : Option (String × String) :=
   match args with
@@ -327,11 +336,84 @@ def handleStop (args impl : List String) : Option (String × String) := do
           match parseMarkList mrest with
           | some (obs, []) =>
             if !allIn then "ok" else
-            if regress ≠ "0" then "fail:regress" else SpecC10.verdict recs finish finish obs
+            if regress ≠ "0" then "fail:regress" else SpecC10.verdict recs finish (List.range recs.length) obs
           | _ => "bad-impl"
         | [] => "bad-impl"
       | [] => "bad-impl"
     pure (m, p)
+  | [] => none
+
+/-! ### c10.live -/
+
+def insertIn (x : Nat × Int × Bool) : List (Nat × Int × Bool) → List (Nat × Int × Bool)
+  | [] => [x]
+  | y :: ys => if x.1 < y.1 ∨ (x.1 = y.1 ∧ x.2.1 ≤ y.2.1) then x :: y :: ys else y :: insertIn x ys
+
+/-- model of the live run, replaying the observed acknowledgement order `acked` (a finish-listed
+    record may stay queued inside the pipeline, so which records were acknowledged is part of the
+    observed trace; it must be a duplicate-free list of finish-listed ordinary records).
+    A record of kind ≠ 0 (tombstone, malformed JSON) is refused by `In`: no event, no
+    acknowledgement, **no mark** — it is finished (dropped at the input), and the marks of its
+    partition are those of the acknowledged ordinary records only. -/
+def liveModel (topics : List Int) (recs : List (Rec × Nat)) (finish acked : List Nat) : Option String := do
+  let sids ← recs.mapM (fun x => startedSourceID topics x.1)
+  let packed := sids.zip (recs.map fun x => packOffset x.1)
+  let rec go : Marks → List Nat → List Nat → Option Marks
+    | m, _, [] => some m
+    | m, seen, i :: is => do
+      if seen.contains i ∨ !(finish.contains i) then none
+      let (sid, off) ← packed[i]?
+      let m' ← commitStarted topics m sid off
+      go m' (i :: seen) is
+  let ins := (packed.zip (recs.map fun x => x.2 == 0)).map fun x => (x.1.1.toNat, x.1.2.toInt, x.2)
+  let sorted := ins.foldr insertIn []
+  let pre := [toString recs.length] ++ sorted.flatMap (fun x => [toString x.1, toString x.2.1, ofBool x.2.2])
+  match go [] [] acked with
+  | some m => pure (unwords (pre ++ [toString acked.length] ++ acked.map toString ++ [encMarks m, "0", encMarks m]))
+  | none => pure (unwords (pre ++ ["reject-acked"]))
+
+def handleLive (args impl : List String) : Option (String × String) :=
+  match args with
+  | _procs :: args' => do
+    let (topics, r0) ← listOf int? args'
+    match r0 with
+    | nr :: rest =>
+      let n ← nat? nr
+      let (rs, r1) ← parseRecs 1 n rest
+      let recsK ← rs.mapM fun x => do
+        let k ← nat? (← x.2.head?)
+        pure (x.1, k)
+      let recs := recsK.map (·.1)
+      let (finish, r2) ← listOf nat? r1
+      if r2 ≠ [] then none
+      if finish.any (fun i => match recsK[i]? with | some (_, 0) => false | _ => true) then none
+      let allIn := recs.all (fun r => SpecC10.inRange 0 r.part r.offset r.epoch && topics.contains r.topic)
+                   && decide (topics.length < 2 ^ 48)
+      -- finished = acknowledged ordinary records + the records refused at the input
+      let refused := (List.range recsK.length).filter fun i =>
+        match recsK[i]? with | some (_, 0) => false | _ => true
+      match impl with
+      | k :: irest =>
+        if k.startsWith "panic" then pure ("no-model-for-failed-run", if allIn then "fail:panic" else "ok") else
+        if nat? k ≠ some recs.length then pure ("bad-impl", "bad-impl") else
+        match listOf nat? (irest.drop (3 * recs.length)) with
+        | some (acked, r3) =>
+          let m := (liveModel topics recsK finish acked).getD "panic:bounds"
+          let fin := acked ++ refused
+          let p := match parseMarkList r3 with
+            | some (before, regress :: mrest) =>
+              match parseMarkList mrest with
+              | some (after, []) =>
+                if !allIn then "ok" else
+                if regress ≠ "0" then "fail:regress" else
+                SpecC10.firstBad [SpecC10.verdict recs fin (List.range recs.length) before,
+                                  SpecC10.verdict recs fin (List.range recs.length) after]
+              | _ => "bad-impl"
+            | _ => "bad-impl"
+          pure (m, p)
+        | none => pure ("bad-impl", "bad-impl")
+      | [] => pure ("bad-impl", "bad-impl")
+    | [] => none
   | [] => none
 
 def handle (cmd : String) (args impl : List String) : Option (String × String) :=
@@ -341,6 +423,7 @@ def handle (cmd : String) (args impl : List String) : Option (String × String) 
   | "c10.pipe" => handlePipe args impl
   | "c10.start" => handleStart args impl
   | "c10.stop" => handleStop args impl
+  | "c10.live" => handleLive args impl
   | _ => none
 
 end FileD.DrvC10
